@@ -549,6 +549,9 @@ WORDS = dict({
     "revision": DATES, "revision-date": DATES,
     "length": RANGES, "range": RANGES, "pattern": PATTERNS,
 })
+for _k in ("value", "position", "fraction-digits", "min-elements", "max-elements", "default"):
+    WORDS[_k] = WORDS[_k] + [" ", "\t", " \n ", " - ", "+", "-", "9" * 400, " 5 ", "0x", "1e5", "２", "٣"]
+RANGES += [" ", "1.. ", "1| |3", " - ", "+", "0x..1e5", "２..٣", "9" * 400, " ..", "\t|\t"]
 TEXT_KW = {"units", "description", "reference", "contact", "organization", "presence", "error-message", "when", "must"}
 
 
@@ -1813,6 +1816,63 @@ def path_case(rnd, dist):
     return hist_line(options(rnd, dist), history(rnd, texts, dist), texts)
 
 
+# ------------------------------------------------------------------ (i-d) hostile strings in numeric positions
+
+HOSTILE_NUM = [" ", "\t", " \n ", "  ", "\r\n", "", " - ", " + ", "+", "-", "--1", "+-1", "- 1", " 5 ", "\t7\n", "5 ", " 5",
+               "0x", "0x10", "0X1f", "1e5", "1E-2", "1_000", "007", "08", "-0", "+0", "0.", ".5", "1.", "1..", "1.2.3",
+               "9" * 19, "9" * 20, "9" * 400, "-" + "9" * 400, "0." + "0" * 300 + "1", "1" + "0" * 30 + ".5",
+               "18446744073709551615", "18446744073709551616", "-9223372036854775808", "-9223372036854775809",
+               "２", "٣", "१२", "1 ", " 1", "1 2", "Ⅷ", "NaN", "inf", "-inf", "min", "max", "unbounded",
+               "1 2", "1,2", "1;2", "\x00", "1\x00", "﻿1", "true", "٠"]
+NUM_TEMPLATES = [
+    ("enum-value", "leaf l { type enumeration { enum a { value %s; } enum b; } }"),
+    ("enum-value-2nd", "leaf l { type enumeration { enum a; enum b { value %s; } enum c; } }"),
+    ("bit-position", "leaf l { type bits { bit a { position %s; } bit b; } }"),
+    ("typedef-enum-value", "typedef t { type enumeration { enum a { value %s; } } } leaf l { type t; }"),
+    ("typedef-bit-position", "typedef t { type bits { bit a { position %s; } } default a; } leaf l { type t; }"),
+    ("fraction-digits", "leaf l { type decimal64 { fraction-digits %s; } }"),
+    ("typedef-fraction-digits", "typedef t { type decimal64 { fraction-digits %s; range 1..2; } } leaf l { type t; }"),
+    ("union-member-fraction-digits", "leaf l { type union { type string; type decimal64 { fraction-digits %s; } } }"),
+    ("union-member-enum-value", "typedef u { type union { type enumeration { enum a { value %s; } } type int8; } } leaf l { type u; }"),
+    ("deviate-type-fraction-digits", "leaf l { type string; } deviation /n:l { deviate replace { type decimal64 { fraction-digits %s; } } }"),
+    ("deviate-type-enum-value", "leaf l { type string; } deviation /n:l { deviate replace { type enumeration { enum a { value %s; } } } }"),
+    ("leaf-list-enum-value", "leaf-list l { type enumeration { enum a { value %s; } } }"),
+    ("grouping-bit-position", "grouping g { leaf l { type bits { bit a { position %s; } } } } container c { uses g; }"),
+    ("rpc-input-enum-value", "rpc r { input { leaf l { type enumeration { enum a { value %s; } } } } }"),
+    ("min-elements", "list li { key k; leaf k { type string; } min-elements %s; }"),
+    ("max-elements", "leaf-list ll { type string; max-elements %s; }"),
+    ("deviate-min-elements", "leaf-list ll { type string; } deviation /n:ll { deviate add { min-elements %s; } }"),
+    ("deviate-max-elements", "list li { key k; leaf k { type string; } } deviation /n:li { deviate replace { max-elements %s; } }"),
+    ("range", "leaf l { type int32 { range %s; } }"),
+    ("range-part", "leaf l { type int32 { range \"1..\" + %s; } }"),
+    ("range-alternative", "leaf l { type uint8 { range \"1|\" + %s + \"|9\"; } }"),
+    ("decimal-range", "leaf l { type decimal64 { fraction-digits 2; range %s; } }"),
+    ("length", "leaf l { type string { length %s; } }"),
+    ("length-part", "typedef t { type string { length \"0..10\"; } } leaf l { type t { length %s + \"..5\"; } }"),
+    ("default-of-int", "leaf l { type int8; default %s; }"),
+    ("default-of-decimal", "typedef t { type decimal64 { fraction-digits 1; } default %s; } leaf l { type t; }"),
+    ("revision", "revision %s;"),
+    ("revision-date", "import o { prefix o; revision-date %s; }"),
+    ("yang-version", "yang-version %s;"),
+]
+
+
+def numeric_case(rnd, dist):
+    name, tpl = rnd.choice(NUM_TEMPLATES)
+    v = rnd.choice(HOSTILE_NUM)
+    dist["numeric-position:" + name] += 1
+    dist["numeric-string:" + ("blank-only" if v and not v.strip(" \t\r\n") else "empty" if not v else "sign-only" if v.strip() in "+-" and v.strip()
+                              else "very-long" if len(v) > 30 else "non-ascii" if any(ord(ch) > 127 for ch in v) else "other")] += 1
+    q = '"' + v.replace("\\", "\\\\").replace('"', '\\"') + '"'
+    if rnd.random() < 0.15 and "'" not in v:
+        q = "'" + v + "'"
+    body = tpl.replace("%s", q)
+    texts = [("n.yang", 'module n {\n  namespace "urn:n";\n  prefix n;\n  %s\n}\n' % body)]
+    if name == "revision-date":
+        texts.append(("o.yang", 'module o { namespace "urn:o"; prefix o; revision 2020-01-01; }\n'))
+    return hist_line(options(rnd, dist), history(rnd, texts, dist), texts)
+
+
 # ------------------------------------------------------------------ (i-c) small texts whose naive processing blows up
 
 def module_text(name, body, imports=()):
@@ -1997,6 +2057,8 @@ def gen_chunk(arg):
             cases.append(("sets+mutation", hist_line(options(rnd, dist), history(rnd, mt, dist), mt)))
     for _ in range(npaths):
         cases.append(("schema-paths", path_case(rnd, dist)))
+    for _ in range(max(1, npaths // 2)):
+        cases.append(("numeric-strings", numeric_case(rnd, dist)))
     for _ in range(nmut):
         r = rnd.random()
         if r < 0.35 and groups:
